@@ -193,6 +193,7 @@ class Engine:
             mr = max(0, mr)
             mr_frac = T.choice([0, 0.25, -0.25, 0.4, 0.5, 0.5])
         exact = bool(T.draw(2))
+        wav_trailer = T.draw(3) == 0
         pre_open = T.weighted([(5, 0), (1, 1), (1, 2), (1, 3)])
         preroll = T.weighted([(5, 0), (1, 1), (1, 3), (1, 7)])
         record = bool(T.draw(2)) if prop == "C19" else (T.draw(4) == 0)
@@ -216,6 +217,7 @@ class Engine:
                 "max_read_frac": mr_frac, "record": record,
                 "recorder_class": use_recorder_class, "ops": ops,
                 "extra_reads": sc_extra, "pre_open_reads": pre_open,
+                "wav_trailer": wav_trailer,
                 "preroll": preroll}
 
     # ------------------------------------------------------------- execute
@@ -227,6 +229,9 @@ class Engine:
         return (samples + 0.5) / sr
 
     def run(self, sc, S, prop, want_trace=False):
+        seams.bind()
+        seams.reset_captures(None)
+        seams.PROXY_FILES["on"] = True   # file reads go through the seam
         import auditok  # noqa: F401
         from auditok.util import AudioReader, Recorder
         from auditok.io import BufferAudioSource
@@ -336,11 +341,8 @@ class Engine:
             elif kind in ("wav_eager", "wav_lazy"):
                 tmp = C.scratch_dir()
                 inp = os.path.join(tmp, "a.wav")
-                with wave.open(inp, "wb") as w:
-                    w.setframerate(sr)
-                    w.setsampwidth(sw)
-                    w.setnchannels(ch)
-                    w.writeframes(data)
+                C.write_wav(inp, data, sr, sw, ch,
+                            trailer=bool(sc.get("wav_trailer")))
                 kw = {"large_file": kind == "wav_lazy"}
             else:
                 pipe = sources.SimPipe(data)
@@ -420,7 +422,8 @@ class Engine:
                                   max_samples, src_obj)
             else:
                 v = self._run_c19(sc, reader, model, trace, V, out, record,
-                                  src_obj)
+                                  src_obj, full=data, bps=bps,
+                                  max_samples=max_samples)
             try:
                 reader.close()
             except Exception:
@@ -444,6 +447,7 @@ class Engine:
             return out
         finally:
             sys.stdin = old_stdin
+            seams.PROXY_FILES["on"] = False
             if tmp:
                 C.rm_scratch(tmp)
 
@@ -541,9 +545,12 @@ class Engine:
         out["nontrivial"] = nonempty >= 1 and seen_none >= 1
         return None
 
-    def _run_c19(self, sc, reader, model, trace, V, out, record, src_obj):
+    def _run_c19(self, sc, reader, model, trace, V, out, record, src_obj,
+                 full=None, bps=1, max_samples=None):
         nonempty = 0
         rewound = False
+        degraded = False   # framing before the rewind deviates (C10's
+        #                    business): only what C19 itself states is judged
         reads_after_rewind = 0
         src_reads_at_rewind = None
         for i, op in enumerate(sc["ops"]):
@@ -556,18 +563,28 @@ class Engine:
                     trace.append([op, i, st, None if got is None else
                                   (len(got) if isinstance(got, bytes)
                                    else repr(got))])
+                    if degraded:
+                        if st == "ok" and got is None and op == "readall":
+                            break
+                        if st == "exc":
+                            break
+                        continue
                     if st == "exc":
                         sig = "C19.2:" + type(got).__name__
                         if isinstance(got, TypeError) and model.hop is not None:
                             sig = "C19.2:overlap_TypeError_after_end"
                         if not rewound:
                             # framing before any rewind is C10's business
-                            return None
+                            degraded = True
+                            break
                         return V("C19.2", "op %d: read after rewind raised %r;"
                                  " expected %s" % (i, got, _short(want)), sig)
                     if got != want:
                         if not rewound:
-                            return None  # framing error: C10's business
+                            degraded = True   # framing error: C10's business
+                            if got is None:
+                                break
+                            continue
                         return V("C19.2", "op %d: replayed read returned %s, "
                                  "expected %s" % (i, _short(got),
                                                   _short(want)),
@@ -595,6 +612,25 @@ class Engine:
                 if st == "exc":
                     return V("C19.2", "op %d: rewind() raised %r" % (i, got),
                              "C19.2:rewind_raises")
+                if degraded:
+                    # still C19's own statement: the recording is a prefix
+                    # of the source audio and never exceeds max_read
+                    st2, d2 = self._call(lambda: reader.data)
+                    if st2 == "ok" and isinstance(d2, bytes) \
+                            and full is not None:
+                        if max_samples is not None \
+                                and len(d2) > max_samples * bps:
+                            return V("C19.1", "recorded data has %d bytes, "
+                                     "beyond max_read (%d samples = %d "
+                                     "bytes)" % (len(d2), max_samples,
+                                                 max_samples * bps),
+                                     "C19.1:beyond_max_read")
+                        if d2 != full[:len(d2)]:
+                            return V("C19.1", "recorded data is not a prefix "
+                                     "of the source audio",
+                                     "C19.1:not_a_prefix")
+                    out["probes"]["degraded_after_framing_mismatch"] = 1
+                    return None
                 model.rewind()
                 if not rewound and src_obj is not None:
                     src_reads_at_rewind = src_obj.reads
